@@ -312,7 +312,7 @@ func sinkDrains(ctx *Ctx, items, buf int) {
 }
 
 func checkC04(ctx *Ctx) {
-	ctx.Res.Rule = "random acyclic workflows (chains, diamonds, fan-out, fan-in free multi-port and multi-edge processes, FromStr / ParamSource parameter ports, processes without ports or without out-ports), balanced and unbalanced stream lengths 0-7 against SCIPIPE_BUFSIZE in {1,2,3,128}, maxConcurrentTasks 1-4; non-trivial = at least two tasks; distinct by (graph, bufsize). Checks: per process the number of executed commands, no input set twice, file set and every file's bytes equal to the zip-semantics oracle, and the Lean task-creation model's task count; channel model searched exhaustively for small parameters."
+	ctx.Res.Rule = "random acyclic workflows (chains, diamonds, fan-out, fan-in free multi-port and multi-edge processes, processes with a second out-port (consumed downstream or left to the sink), FromStr / ParamSource parameter ports, processes without ports or without out-ports), balanced and unbalanced stream lengths 0-7 against SCIPIPE_BUFSIZE in {1,2,3,128}, maxConcurrentTasks 1-4; non-trivial = at least two tasks; distinct by (graph, bufsize). Checks: per process the number of executed commands, no input set twice, file set and every file's bytes equal to the zip-semantics oracle, and the Lean task-creation model's task count; channel model searched exhaustively for small parameters."
 	r := NewRng(ctx.Seed)
 	n := 30
 	if ctx.Thorough() {
